@@ -61,12 +61,17 @@ Begin ==
     /\ Idle /\ Pending # <<>>
     /\ LET i == Head(Pending) IN
        /\ cur' = i /\ agenda' = Tail(Pending) /\ newp' = <<>>
-       /\ snap' = {h \in reg : h.ev = inst[i].ev} /\ done' = {} /\ relay' = "p" /\ stopped' = FALSE
+       \* (c = -1 stands for a post without any kwargs: nothing is posted for a either)
+       /\ snap' = {h \in reg : h.ev = inst[i].ev} /\ done' = {} /\ relay' = (IF inst[i].c = -1 THEN "MISSING" ELSE "p") /\ stopped' = FALSE
        /\ status' = [status EXCEPT ![i] = "running"]
     /\ act' = [op |-> "begin"]
     /\ UNCHANGED <<reg, inst, nchild, inh, incb, cbq, nops>>
 Todo == {h \in snap : h.id \notin done}
-CondOK(h) == h.cond = -1 \/ h.cond = inst[cur].c
+\* conditions are evaluated at the handler's turn against the MERGED kwargs: codes 0/1 require the posted kwarg c to have
+\* that value; 2 requires a = "h" (true exactly for a handler registered with its own a); 3 requires a = "p" (the posted
+\* value: no own a, and no earlier relay handler has replaced it)
+CondOK(h) == \/ h.cond = -1 \/ (h.cond \in {0, 1} /\ h.cond = inst[cur].c)
+             \/ (h.cond = 2 /\ h.hk) \/ (h.cond = 3 /\ ~h.hk /\ relay = "p")
 \* a handler may be passed over if its condition is false or it has been removed meanwhile
 Skippable(h) == ~CondOK(h) \/ h.id \notin Ids(reg)
 \* next handler: highest priority among those not yet invoked/skipped and not skippable
@@ -75,7 +80,10 @@ Invoke(h) ==
     /\ \A g \in Todo : (g.prio > h.prio) => Skippable(g)
     /\ inh' = h.id
     /\ done' = done \cup {h.id} \cup {g.id : g \in {x \in Todo : x.prio > h.prio}}
-    /\ act' = [op |-> "invoke", inst |-> cur, h |-> h.id, a |-> IF h.hk THEN "h" ELSE relay, c |-> inst[cur].c]
+    \* r: a second relayed kwarg that no handler registers itself (what earlier relay handlers returned must reach every
+    \* later handler, also one that has kwargs of its own)
+    /\ act' = [op |-> "invoke", inst |-> cur, h |-> h.id, a |-> IF h.hk THEN "h" ELSE relay, c |-> inst[cur].c,
+                r |-> IF relay \in {"p", "MISSING"} THEN "MISSING" ELSE relay]
     /\ UNCHANGED <<reg, inst, nchild, newp, agenda, cur, snap, relay, stopped, incb, cbq, status, nops>>
 \* the handler returns: None, False (stops a boolean event) or a dict (updates a relay event's kwargs)
 Ret(val) ==
@@ -97,15 +105,23 @@ Callback ==
     /\ incb' = cbq[Len(cbq)].i /\ cbq' = SubSeq(cbq, 1, Len(cbq) - 1)
     /\ act' = [op |-> "callback", inst |-> cbq[Len(cbq)].i, a |-> cbq[Len(cbq)].a, res |-> cbq[Len(cbq)].res]
     /\ UNCHANGED <<reg, inst, nchild, newp, agenda, cur, snap, done, relay, stopped, inh, status, nops>>
+\* replace_handler: the registration of h gets a new priority (a dispatch already under way keeps its snapshot)
+ReplaceHandler(h, p) ==
+    /\ (\E x \in reg : x.id = h /\ x.cond = -1) /\ nops < MaxOps
+    /\ (inh # "" \/ incb # 0 \/ (cur = 0 /\ agenda = <<>> /\ cbq = <<>>))
+    /\ reg' = {IF x.id = h THEN [x EXCEPT !.prio = p] ELSE x : x \in reg}
+    /\ nops' = nops + 1 /\ act' = [op |-> "replace", h |-> h, prio |-> p]
+    /\ UNCHANGED <<inst, nchild, newp, agenda, cur, snap, done, relay, stopped, inh, incb, cbq, status>>
 CbEnd == /\ incb # 0 /\ incb' = 0 /\ act' = [op |-> "cbend"]
          /\ UNCHANGED <<reg, inst, nchild, newp, agenda, cur, snap, done, relay, stopped, inh, cbq, status, nops>>
 Next == \/ \E e \in Ev, ty \in TySet, cb \in BOOLEAN, c \in CSet : Post(e, ty, cb, c)
         \/ \E h \in Hid, e \in Ev, p \in Prio, hk \in HkSet, cond \in CondSet : AddHandler(h, e, p, hk, cond)
-        \/ \E h \in Hid : RemoveHandler(h)
+        \/ \E h \in Hid : RemoveHandler(h) \/ \E p \in Prio : ReplaceHandler(h, p)
         \/ Begin \/ EndDispatch \/ Callback \/ CbEnd
         \/ \E h \in snap : Invoke(h)
         \/ \E v \in {"none", "false", "dict"} : Ret(v)
 Spec == Init /\ [][Next]_vars
 DefaultCondSet == {-1, 1}
+FullCondSet == {-1, 0, 1, 2, 3}
 Quiet == Idle /\ Pending = <<>> /\ cbq = <<>>
 =============================================================================
